@@ -12,7 +12,8 @@ register(Prop(
     classes={'empty_level': _pb.has_empty_level},
     assumptions=[
         "concurrent runs are unserialised real executions (2-8 publishers, payloads up to 7000 bytes through a 16 KiB outgoing ring so packets wrap mid-packet); they sample interleavings, the theorem quantifies over all of them",
-        "the outgoing ring itself (wrap-around, blocking) is Core D (C14/C15); the write-lock model treats the ring as an unbounded array",
+        "the wrap path is modelled over a finite ring of 2^k cells with one consumer (Model/WriteWrap.lean); a whole-packet copy is one model step and WriteWait is simply disabled while the ring is full - the ring's condition variables, gate cache and Close are Core D (C14/C15)",
+        "the statement-level shape of writeMessage (growth test, Encode(svc.outtmp[0:]), Write(svc.outtmp[0:n]), Encode(buf[0:]), WriteCommit(n), Len/Lock/defer Unlock/WriteWait order) is regenerated on every check and equated with the model's step table",
         "that no write to a connection bypasses wmu is a lock-discipline fact (regenerated; C18)",
     ] + _pb.BROKER_ASSUMPTIONS,
     trusted=COMMON_TRUSTED))
